@@ -228,9 +228,10 @@ def mergeCommon (p1 p2 : Config) : Config :=
   | _ => p1
 
 def mergeSpoc (fixed : Bool) (p1 p2 : Config) : Res Config :=
-  -- processVsysPairs returns an error (ignored by MergeSpoc) before any pair is visited
+  -- processVsysPairs returns an error before any pair is visited; MergeSpoc aborts with it (9053b7c)
   if (firstDevice p1).name ≠ [] ∧ (firstDevice p2).name ≠ [] ∧ (firstDevice p1).name ≠ (firstDevice p2).name then
-    .ok p1
+    .diag (lit "Different names in <device> of XML: netspoc='" ++ (firstDevice p1).name ++
+      lit "', netspoc='" ++ (firstDevice p2).name ++ lit "'")
   else
     mergeNew fixed (mergeCommon p1 p2)
       ((firstDevice p2).vsys.filter fun v => ¬ (firstDevice p1).vsys.any (fun x => x.name = v.name))
@@ -285,25 +286,6 @@ termination_by fuel l => (fuel, l.length)
 
 end NA.C20.PanOs
 
-namespace NA.C20.Backend
-open NA.C20 NA.C20.Res
-
-/-- `device.getRealDevice` creates ONE backend per run; every `deviceconf.Config` of the run is
-produced by that backend's `ParseConfig` / `LoadDevice` / `MergeSpoc`. -/
-inductive Kind | asa | ios | linux | nsx | panos
-  deriving DecidableEq, Repr
-
-structure Conf where
-  kind : Kind
-  deriving Repr
-
-def produce (k : Kind) : Conf := ⟨k⟩
-
-/-- the type assertion `c.(*XConfig)` inside backend `k`. -/
-def assertKind (k : Kind) (c : Conf) : Res Unit :=
-  if c.kind = k then .ok () else .panic (.explicit "interface conversion")
-
-end NA.C20.Backend
 
 namespace NA.C20.Files
 open NA.C20 NA.C20.Res
@@ -328,8 +310,5 @@ def loadInfoFile (fixed : Bool) : List OpenRes → Res Bool
     else if isNull ∧ ¬ fixed then .panic (.nilDeref "info.IPList")
     else if hasIP ∧ ¬ isNull then .ok true
     else loadInfoFile fixed rest
-
-/-- `status.Read`: read error and JSON error are ignored; the zero value is used. -/
-def statusRead (readable : Bool) (validJSON : Bool) : Res Bool := .ok (readable && validJSON)
 
 end NA.C20.Files
